@@ -135,15 +135,8 @@ def gen(tier, seed):
         add("red", {"op": op, "v": 11}, f"r = {op}(x + y)")
         add("red", {"op": op, "v": 12}, f"r = r + {op}(x)")
         add("red", {"op": op, "v": 13}, f"x(:) = x(:) / {op}(x(:))")
-    if tier == "quick":
-        by = {}
-        for c in cases:
-            by.setdefault(c["template"], []).append(c)
-        out = []
-        for t, lst in by.items():
-            core = lst[:14]
-            rest = lst[14:]
-            rnd.shuffle(rest)
-            out += core + rest[:6]
-        return out
+        add("red", {"op": op, "v": 14}, f"x(i1) = x(i2) + {op}(y)")
+        add("red", {"op": op, "v": 15}, f"x(i1) = {op}(y) * x(i2) - x(i1)")
+        add("red", {"op": op, "v": 16}, f"x(1) = 2.0_wp * {op}(x)")
+        add("red", {"op": op, "v": 17}, f"x2(i1,1) = x2(i2,1) + {op}(x2)")
     return cases
